@@ -75,17 +75,23 @@ package parser
 // to the same pairing by structural scans (global-maps-inverse, global-map-equals).
 //@ spec func peekOf(l *Lexer) byte = ite(l.readPosition >= len(l.input), 0, l.input[l.readPosition])
 //@ func (*Lexer).readChar
+//@   strict
 //@   mathint
-//@   requires l != nil && l.readPosition >= 0
+//@   requires l != nil && 0 <= l.readPosition && l.readPosition <= len(l.input)
 //@   modifies l.ch, l.position, l.readPosition, l.column
-//@   ensures l.readPosition == old(l.readPosition) + 1 && l.position == old(l.readPosition)
+//@   ensures wfL(l) && l.readPosition == old(l.readPosition) + 1 && l.position == old(l.readPosition)
 //@   ensures l.ch == ite(old(l.readPosition) >= len(l.input), 0, l.input[old(l.readPosition)])
 //@ func (*Lexer).peekChar
+//@   strict
 //@   requires l != nil && l.readPosition >= 0
 //@   modifies nothing
 //@   ensures result == peekOf(l)
 //@ func (*Lexer).nextToken
-//@   requires l != nil && l.readPosition >= 0
+//@   strict
+//@   requires wfL(l)
+//@   ensures wfL(l) && l.input == old(l.input) && l.position >= old(l.position)
+//@   ensures result.Type != EOF && result.Type != ILLEGAL ==> l.position > old(l.position)
+//@   summary result.Type == ILLEGAL && libcall(strings.HasPrefix, result.Literal, "unterminated_string:") ==> len(result.Literal) > 20
 //@   ensures old(l.ch) == '@' ==> result.Type == AT
 //@   ensures old(l.ch) == ':' ==> result.Type == COLON
 //@   ensures old(l.ch) == '$' ==> result.Type == DOLLAR
@@ -100,6 +106,16 @@ package parser
 //@   ensures old(l.ch) == '&' && old(peekOf(l)) != '&' ==> result.Type == AMPERSAND
 //@   ensures old(l.ch) == '=' && old(peekOf(l)) != '=' && old(peekOf(l)) != '>' ==> result.Type == EQUALS
 //@ func (*ExpandedLexer).readIdentifier
+//@   strict
+//@   requires wfX(l)
+//@   modifies l.ch, l.position, l.readPosition, l.column
+//@   ensures wfX(l) && l.position >= old(l.position)
+//@   ensures old(l.ch) == 47 || old(l.ch) == 95 || libcall(unicode.IsLetter, rune(old(l.ch))) ==> l.position > old(l.position)
+//@   ensures result.Type != ILLEGAL
+//@   loop 1 invariant wfX(l) && l.position >= old(l.position) && (l.position == old(l.position) ==> l.ch == old(l.ch))
+//@   loop 1 decreases len(l.input) - l.position
+//@   loop 2 invariant wfX(l) && l.position >= old(l.position) && (l.position == old(l.position) ==> l.ch == old(l.ch))
+//@   loop 2 decreases len(l.input) - l.position
 //@   ensures result.Literal == "route" ==> result.Type == AT
 //@   ensures result.Literal == "type" ==> result.Type == COLON
 //@   ensures result.Literal == "let" ==> result.Type == DOLLAR
@@ -113,3 +129,149 @@ package parser
 //@   ensures result.Literal == "command" ==> result.Type == BANG
 //@   ensures result.Literal == "queue" ==> result.Type == AMPERSAND
 //@   ensures result.Literal == "func" ==> result.Type == EQUALS
+
+// ---- the lexer on arbitrary bytes (C10, source half): no index or slice panic and termination ----
+// wfL: the cursor is inside the input (or just behind it), the look-ahead position is the next one,
+// and the current byte is the byte under the cursor (0 behind the end; a NUL byte in the input reads
+// as end of input too). Every scanning loop advances the cursor, so the lexer terminates; the
+// token loop of Tokenize consumes at least one byte per token.
+//@ spec func wfL(l *Lexer) bool = l != nil && 0 <= l.position && l.position <= len(l.input) && l.readPosition == l.position + 1 && l.ch == ite(l.position >= len(l.input), 0, l.input[l.position])
+//@ axiom nulIsNoLetter(): !libcall(unicode.IsLetter, rune(0)) && !libcall(unicode.IsDigit, rune(0))
+//@ axiom hasPrefixLen(s string, p string): libcall(strings.HasPrefix, s, p) ==> len(s) >= len(p)
+//@ func NewLexer
+//@   strict
+//@   ensures wfL(result) && result.input == input
+//@ func isHexDigit
+//@   strict
+//@   modifies nothing
+//@   ensures result ==> ch != 0
+//@ func isIdentifierStart
+//@   strict
+//@   modifies nothing
+//@   ensures result ==> ch != 0
+//@   ensures result == (libcall(unicode.IsLetter, rune(ch)) || ch == 95)
+//@ func isIdentifierChar
+//@   strict
+//@   modifies nothing
+//@   ensures result ==> ch != 0
+//@   ensures result == (libcall(unicode.IsLetter, rune(ch)) || libcall(unicode.IsDigit, rune(ch)) || ch == 95)
+//@ func (*Lexer).skipWhitespaceExceptNewlines
+//@   strict
+//@   requires wfL(l)
+//@   modifies l.ch, l.position, l.readPosition, l.column
+//@   ensures wfL(l) && l.position >= old(l.position)
+//@   loop 1 invariant wfL(l) && l.position >= old(l.position)
+//@   loop 1 decreases len(l.input) - l.position
+//@ func (*Lexer).skipComment
+//@   strict
+//@   requires wfL(l) && l.ch != 0 && l.ch != 10
+//@   modifies l.ch, l.position, l.readPosition, l.column
+//@   ensures wfL(l) && l.position > old(l.position)
+//@   loop 1 invariant wfL(l) && l.position >= old(l.position) && (l.position == old(l.position) ==> l.ch != 0 && l.ch != 10)
+//@   loop 1 decreases len(l.input) - l.position
+//@ func (*Lexer).readHexDigits
+//@   strict
+//@   requires wfL(l) && l.ch != 0
+//@   modifies l.ch, l.position, l.readPosition, l.column
+//@   ensures wfL(l) && l.position >= old(l.position) && l.ch != 0
+//@   loop 1 invariant wfL(l) && l.position >= old(l.position) && l.ch != 0
+//@ func (*Lexer).readIdentifier
+//@   strict
+//@   requires wfL(l) && (l.ch == 47 || l.ch == 95 || libcall(unicode.IsLetter, rune(l.ch)))
+//@   modifies l.ch, l.position, l.readPosition, l.column
+//@   ensures wfL(l) && l.position > old(l.position)
+//@   loop 1 invariant wfL(l) && l.position >= old(l.position) && (l.position == old(l.position) ==> l.ch == 47)
+//@   loop 1 decreases len(l.input) - l.position
+//@   loop 2 invariant wfL(l) && l.position >= old(l.position) && (l.position == old(l.position) ==> l.ch == 95 || libcall(unicode.IsLetter, rune(l.ch)))
+//@   loop 2 decreases len(l.input) - l.position
+//@ func (*Lexer).readNumber
+//@   strict
+//@   requires wfL(l) && libcall(unicode.IsDigit, rune(l.ch))
+//@   modifies l.ch, l.position, l.readPosition, l.column
+//@   ensures wfL(l) && l.position > old(l.position)
+//@   loop 1 invariant wfL(l) && l.position >= old(l.position) && (l.position == old(l.position) ==> libcall(unicode.IsDigit, rune(l.ch)))
+//@   loop 1 decreases len(l.input) - l.position
+//@   loop 2 invariant wfL(l) && l.position > old(l.position)
+//@   loop 2 decreases len(l.input) - l.position
+//@ func (*Lexer).readString
+//@   strict
+//@   requires wfL(l) && l.ch != 0
+//@   modifies l.ch, l.position, l.readPosition, l.column
+//@   ensures wfL(l) && l.position > old(l.position)
+// (the diagnostic for an unterminated literal is the fixed prefix followed by the quote character: at
+// least one byte longer than the prefix - a fact about fmt.Sprintf with %c, assumed)
+//@   summary result.Type == ILLEGAL && libcall(strings.HasPrefix, result.Literal, "unterminated_string:") ==> len(result.Literal) > 20
+//@   loop 1 invariant wfL(l) && l.position > old(l.position)
+//@   loop 1 decreases len(l.input) - l.position
+//@ func (*Lexer).Tokenize
+//@   strict
+//@   requires wfL(l)
+//@   loop 1 invariant wfL(l)
+//@   loop 1 decreases len(l.input) - l.position
+
+// ---- the expanded-syntax lexer (.glyphx): the same discipline (C10, C18) ----
+//@ spec func wfX(l *ExpandedLexer) bool = l != nil && 0 <= l.position && l.position <= len(l.input) && l.readPosition == l.position + 1 && l.ch == ite(l.position >= len(l.input), 0, l.input[l.position])
+//@ spec func peekOfX(l *ExpandedLexer) byte = ite(l.readPosition >= len(l.input), 0, l.input[l.readPosition])
+//@ func NewExpandedLexer
+//@   strict
+//@   ensures wfX(result) && result.input == input
+// (the expanded lexer reads one byte past an escape even at the end of the input, so its readChar is
+// total: behind the end it keeps reading 0 and the cursor runs ahead; that happens only on the way to
+// an ILLEGAL token, after which Tokenize stops)
+//@ func (*ExpandedLexer).readChar
+//@   strict
+//@   mathint
+//@   requires l != nil && 0 <= l.readPosition
+//@   modifies l.ch, l.position, l.readPosition, l.column
+//@   ensures l.readPosition == old(l.readPosition) + 1 && l.position == old(l.readPosition)
+//@   ensures old(l.readPosition) <= len(l.input) ==> wfX(l)
+//@   ensures l.ch == ite(old(l.readPosition) >= len(l.input), 0, l.input[old(l.readPosition)])
+//@ func (*ExpandedLexer).peekChar
+//@   strict
+//@   requires l != nil && l.readPosition >= 0
+//@   modifies nothing
+//@   ensures result == peekOfX(l)
+//@ func (*ExpandedLexer).skipWhitespaceExceptNewlines
+//@   strict
+//@   requires wfX(l)
+//@   modifies l.ch, l.position, l.readPosition, l.column
+//@   ensures wfX(l) && l.position >= old(l.position)
+//@   loop 1 invariant wfX(l) && l.position >= old(l.position)
+//@   loop 1 decreases len(l.input) - l.position
+//@ func (*ExpandedLexer).skipComment
+//@   strict
+//@   requires wfX(l) && l.ch != 0 && l.ch != 10
+//@   modifies l.ch, l.position, l.readPosition, l.column
+//@   ensures wfX(l) && l.position > old(l.position)
+//@   loop 1 invariant wfX(l) && l.position >= old(l.position) && (l.position == old(l.position) ==> l.ch != 0 && l.ch != 10)
+//@   loop 1 decreases len(l.input) - l.position
+//@ func (*ExpandedLexer).readNumber
+//@   strict
+//@   requires wfX(l) && libcall(unicode.IsDigit, rune(l.ch))
+//@   modifies l.ch, l.position, l.readPosition, l.column
+//@   ensures result.Type != ILLEGAL
+//@   ensures wfX(l) && l.position > old(l.position)
+//@   loop 1 invariant wfX(l) && l.position >= old(l.position) && (l.position == old(l.position) ==> libcall(unicode.IsDigit, rune(l.ch)))
+//@   loop 1 decreases len(l.input) - l.position
+//@   loop 2 invariant wfX(l) && l.position > old(l.position)
+//@   loop 2 decreases len(l.input) - l.position
+//@ func (*ExpandedLexer).readString
+//@   strict
+//@   requires wfX(l) && l.ch != 0
+//@   modifies l.ch, l.position, l.readPosition, l.column
+//@   ensures l.position > old(l.position) && (result.Type != ILLEGAL ==> wfX(l))
+//@   summary result.Type == ILLEGAL ==> len(result.Literal) > 20
+//@   loop 1 invariant l != nil && l.readPosition == l.position + 1 && l.position > old(l.position) && (l.ch != 0 ==> wfX(l))
+//@   loop 1 decreases len(l.input) + 2 - l.position
+//@ func (*ExpandedLexer).Tokenize
+//@   strict
+//@   requires wfX(l)
+//@   loop 1 invariant wfX(l)
+//@   loop 1 decreases len(l.input) - l.position
+//@ func (*ExpandedLexer).nextToken
+//@   strict
+//@   requires wfX(l)
+//@   ensures l.input == old(l.input) && l.position >= old(l.position) && (result.Type != ILLEGAL ==> wfX(l))
+//@   ensures result.Type != EOF && result.Type != ILLEGAL ==> l.position > old(l.position)
+//@   ensures result.Type == ILLEGAL ==> len(result.Literal) > 0
+//@   summary result.Type == ILLEGAL && libcall(strings.HasPrefix, result.Literal, "unterminated_string:") ==> len(result.Literal) > 20
